@@ -109,9 +109,22 @@ DevEscape == o.ec # o.qc /\ \E s \in StringsOf : Has(s, o.ec) /\ (o.style \in {"
 DevHeader == o.header = "assume" /\ \E j \in 1..Len(t.names) : MustQuote(t.names[j], o) \/ SoleEmpty(t.names[j], NCols(t), o)
 \* a record whose only field is the empty string is written as an empty line
 DevSoleEmpty == o.style = "minimal" /\ NCols(t) = 1 /\ \E i \in 1..Len(t.rows) : t.rows[i][1] = S(<<>>)
+\* reader: a TAB (or space) at the start of a line is taken as data before it is compared with the field
+\* delimiter, so with field_delimiter TAB a record whose first field is empty and unquoted is misread
+\* (the json flavour writes the columns of objects in ascending order of the names, ojson in the order given:
+\* the first field of a line is column 1 or the column with the least name)
+RECURSIVE KeyLess(_, _)
+KeyLess(a, b) == IF a = <<>> THEN b # <<>> ELSE IF b = <<>> THEN FALSE
+                 ELSE IF a[1] # b[1] THEN a[1] < b[1] ELSE KeyLess(Tail(a), Tail(b))
+FirstCols == {1} \cup (IF o.header = "none" THEN {} ELSE { j \in 1..NCols(t) : \A k \in 1..NCols(t) : ~KeyLess(t.names[k], t.names[j]) })
+DevTabStart == /\ o.fd = TAB /\ NCols(t) >= 2
+               /\ \/ o.header = "assume" /\ \E j \in 1..NCols(t) : t.names[j] = <<>>
+                  \/ o.style \in {"minimal", "none"} /\ \E i \in 1..Len(t.rows) : \E j \in FirstCols : t.rows[i][j] = S(<<>>)
 DevIs(n) == CASE n = "escape-char-unescaped" -> DevEscape [] n = "header-unquoted" -> DevHeader
               [] n = "linebreak-unquoted" -> DevLinebreak [] n = "sole-empty-unquoted" -> DevSoleEmpty
-Dev == SelectSeq(<<"escape-char-unescaped", "header-unquoted", "linebreak-unquoted", "sole-empty-unquoted">>, DevIs)
+              [] n = "tab-delimiter-at-line-start" -> DevTabStart
+Dev == SelectSeq(<<"escape-char-unescaped", "header-unquoted", "linebreak-unquoted", "sole-empty-unquoted",
+                   "tab-delimiter-at-line-start">>, DevIs)
 
 \* ---- emission
 Doc == CASE o.mapping = "n_rows" -> <<"arr", [i \in 1..Len(t.rows) |-> <<"arr", t.rows[i]>>]>>
